@@ -29,7 +29,7 @@ static jmp_buf cut_jmp;
 
 struct inputs {
   unsigned num_worker, work_units, out_slots, parse_token, parsing_done;
-  unsigned n_retr, n_emit, n_reord, n_unord, n_order;
+  unsigned n_retr, n_emit, n_reord, n_unord, n_order, n_unord_fill;
   unsigned gP, gS, gR, gE, gW;
   unsigned pos_word[4], pos_live[4];      /* positions of the job at the head of retr_q / scan task / parser / candidate */
   unsigned rv[3];                         /* stub results: parse/scan/retrieve/emit */
@@ -54,11 +54,20 @@ static void verif_free(void *p) { (void)p; freed_cnt++; }
 bool eof; unsigned work_units, in_slots, out_slots, total_work_units, total_in_slots, total_out_slots; size_t in_granul, out_granul;
 unsigned num_worker; size_t max_mem; bool decompress; unsigned bs100k = 9; bool force, keep, verbose, print_cctrs, small, ultra;
 struct filespec ispec, ospec;
+static void *alloc_ptr[64]; static size_t alloc_sz[64]; static unsigned alloc_n;
 void *xmalloc(size_t n)
 {
   /* C13: whatever a task allocates is bounded by a constant plus one output buffer - never by input or output size */
   PROP(n <= 65536 + out_granul, "allocations of the decompression tasks are bounded by a constant plus one output buffer (C13)");
-  void *p = malloc(n); ASSUME(p != 0); return p;
+  void *p = malloc(n); ASSUME(p != 0);
+  if (alloc_n < 64) { alloc_ptr[alloc_n] = p; alloc_sz[alloc_n] = n; alloc_n++; }
+  return p;
+}
+/* size in bytes of the block xmalloc() returned for p (0 if unknown): the capacity the real init() gave a queue */
+static size_t cap_of(const void *p)
+{
+  unsigned i; for (i = 0; i < alloc_n; i++) if (alloc_ptr[i] == p) return alloc_sz[i];
+  return 0;
 }
 void info(const char *fmt, ...) { (void)fmt; }
 static bool failed, fail_allowed;
@@ -281,8 +290,19 @@ void h_rgx_scan(void)
   /* reservation: speculative scanning never takes the last free work unit while the parser may need it */
   PROP(work_units > 1 || !parse_token, "the last free work unit is not given to the scanner while the parser is idle (C11)");
   if (IN.rv[0] & 1) WITNESS("candidate_reported");
-  /* room for a new record is what the unord_q bound provides (not part of this invariant) */
-  ASSUME(size(unord_q) == 0);
+  /* Records already waiting in unord_q.  Assumption J (paper argument, DESIGN.md 5 C11; not decided here): every
+     record is backed by a distinct work unit or output slot held by a speculative job.  Before this scan starts at
+     most num_worker-2 units (one is free for this scanner, one is free or held by the sequential chain - the
+     reservation rule checked above) and total_out_slots-2 slots (reservation rule of do_emit) can be so held.
+     Decided here: the capacity the real init() allocated holds the record the real do_scan() adds on top of that. */
+  {
+    unsigned n = IN.n_unord_fill;
+    ASSUME(num_worker >= 2 ? n <= num_worker + total_out_slots - 4u : n == 0);
+    unord_q.size = n;
+    if (n > 0 && n == num_worker + total_out_slots - 4u) WITNESS("unord_q_filled_to_the_reservation_bound");
+  }
+  PROP(cap_of(unord_q.root) >= (size(unord_q) + 1u) * sizeof *unord_q.root, "unord_q as sized by init() has room for the record a scan adds when every unreserved unit and slot already backs one (C11)");
+  PROP(cap_of(retr_q.root) >= (size(retr_q) + 1u) * sizeof *retr_q.root, "retr_q as sized by init() has room for the retrieve job a scan adds (C11)");
   gS++;
   do_scan();
   gS--;
